@@ -271,6 +271,58 @@ def md7(F, R):
                 R.ok(fn, key, "no effect precedes %s (%d effects in function)" % (key, len(effs)), fn.loc(b, i))
 
 
+def closure_equalities(F, clo):
+    """For a predicate closure `|x| a == b && c == d ..` (as handed to any / position / find): (ok, [(item field path,
+    captured caller term)], extras).  Each conjunct compares a field of the scanned item (closure parameter) with a
+    captured value; the captured side is returned as the caller's term.  ok is False when the closure has another shape."""
+    from .ev import norm_bool
+    clo = strip_refs(clo)
+    if not (clo[0] == "agg" and clo[1] == "Closure"):
+        return (False, [], ["not a closure literal"])
+    try:
+        c = F.closure(clo[2])
+    except KeyError:
+        return (False, [], ["closure body not found"])
+    caps = list(clo[3])
+    may_true = []
+    for d in c.defs().get(0, []):
+        v = c.term_of_rvalue(d[3], d[1]) if d[0] == "assign" else c.call_term(d[2], d[1])
+        if v[:2] == ("c", 0):
+            continue
+        may_true.append((d[1], v))
+    if len(may_true) != 1:
+        return (False, [], ["%d ways to answer true" % len(may_true)])
+    tb, tv = may_true[0]
+    tt, truth = norm_bool(tv, True)
+    if tt[0] != "cmp" or tt[1] != "Eq" or not truth:
+        return (False, [], ["last conjunct is not an equality: %s" % tstr(tv)[:60]])
+    conj = [tt]
+    extras = []
+    for (gb, gi, g) in all_guards(c):
+        if not c.unreachable_without(tb, [(gb, gi)]):
+            continue
+        if g.kind == "bool" and g.term[0] == "cmp" and g.term[1] == "Eq" and g.truth is True:
+            conj.append(g.term)
+        else:
+            extras.append(repr(g)[:60])
+    out = []
+    for t in conj:
+        sides = [strip_refs(t[2]), strip_refs(t[3])]
+        item = [x for x in sides if x[0] == "place" and strip_refs(x[1])[:2] == ("arg", 2)]
+        cap = [x for x in sides if (x[0] == "place" and strip_refs(x[1])[:2] == ("arg", 1))]
+        if len(item) != 1 or len(cap) != 1:
+            extras.append(tstr(t)[:60])
+            continue
+        fi = tuple(e for e in item[0][2] if isinstance(e, str) and e not in ("*", "0") and not e.startswith("as:"))
+        # resolve the captured place (*(*env).k)... to the caller's operand
+        cp = [e for e in cap[0][2] if isinstance(e, str) and e != "*"]
+        k = int(cp[0]) if cp and cp[0].isdigit() else None
+        cterm = strip_refs(caps[k]) if k is not None and k < len(caps) else None
+        rest = tuple(e for e in cp[1:] if not e.isdigit() or True)
+        out.append((fi, cterm, tuple(rest)))
+    return (not extras, out, extras)
+
+
 def file_is_open_any_form(F, fn):
     """file_is_open written as `self.open_files.iter().any(|f| <conjunction>)`: returns None when it is not of this form,
     else (ok, detail, fields) where fields is the set of record fields the conjunction compares with the arguments
@@ -552,15 +604,25 @@ def sk1(F, R):
                 return False
             r = strip_refs(t[2][0])
             return r[0] == "call" and r[1] and r[1].endswith("RangeInclusive::new") and r[2][0][:2] == ("c", 0) and is_size(r[2][1])
-        lo, _ = guarded(fn, b, lambda g: g_cmp("Ge", True, None, lambda z: z[:2] == ("c", 0))(g) or in_range(g))
+        def fits_u32(g):
+            """Ok edge of u32::try_from(<the i64 sum>): taken exactly when 0 <= sum <= u32::MAX"""
+            t = g.term
+            return g.kind == "variant" and g.variant == "Ok" and t[0] == "call" and t[1] and t[1].endswith("TryFrom::try_from") and isinstance(t[3], int) and "u32" in fn.term(t[3]).get("callee_full", "").split(" as ")[0]
+        lo, _ = guarded(fn, b, lambda g: g_cmp("Ge", True, None, lambda z: z[:2] == ("c", 0))(g) or in_range(g) or fits_u32(g))
         hi, _ = guarded(fn, b, lambda g: g_cmp("Le", True, None, is_size)(g) or in_range(g))
         R.require(lo, fn, "lower", "current_offset stored without `new >= 0`", fn.loc(b, i))
         R.require(hi, fn, "upper", "current_offset stored without `new <= size`", fn.loc(b, i))
         # the sum is formed in a type that holds every u32 + i32 exactly (i64): a 32-bit sum rejects or wraps positions >= 2 GiB
         v = fn.term_of_rvalue(fn.blocks[b]["stmts"][i]["rv"], b)
         okw = False
+        inner = None
         if v[0] == "cast" and len(v) > 3 and v[3] in ("i64", "i128") and v[1] == "u32":
             inner = v[2]
+        elif v[0] == "place" and tuple(v[2]) == ("as:Ok", "0") and v[1][0] == "call" and (v[1][1] or "").endswith("TryFrom::try_from"):
+            cf = fn.term(v[1][3]).get("callee_full", "") if isinstance(v[1][3], int) else ""
+            if "u32 as" in cf and ("TryFrom<i64>" in cf or "TryFrom<i128>" in cf):
+                inner = strip_refs(v[1][2][0])       # the checked narrowing of the same 64-bit sum
+        if inner is not None:
             if inner[0] == "bin" and inner[1] in ("Add", "AddWithOverflow"):
                 def widened(x, what):
                     x = strip_refs(x)
@@ -731,16 +793,32 @@ def cp2(F, R):
     pushes = [(b, t) for b, t in fn.calls() if call_matches(t, ("Vec::push",)) and table_of_term(fn.term_of_operand(t["args"][0], b)) == "open_volumes"]
     if not pushes:
         R.bad(fn, "anchor", "no open_volumes push", kind="anchor-missing")
+    anys = []
+    for b, t in fn.calls():
+        if (callee_of(t) or "").endswith("Iterator::any"):
+            ct = fn.call_term(t, b)
+            if _iter_table(fn, ct) == "open_volumes":
+                ok_, conj_, _ex = closure_equalities(F, ct[2][1])
+                if ok_ and len(conj_) == 1 and conj_[0][0] == ("idx",) and conj_[0][1] is not None and strip_refs(conj_[0][1])[:2] == ("arg", 2):
+                    anys.append((b, (lambda q, b=b: q[0] == "call" and q[1] and q[1].endswith("Iterator::any") and q[3] == b)))
+    errs = [x for x in err_returns(fn) if x[2] == "VolumeAlreadyOpen"]
     for b, t in pushes:
         def pr(g):
             return g.kind == "variant" and g.variant == "None" and g.term[0] == "call" and g.term[1].endswith("Iterator::next") and _iter_table(fn, g.term) == "open_volumes"
         ok, _ = guarded(fn, b, pr)
+        for (ab, apred) in anys:
+            # open_volumes.iter().any(|v| v.idx == volume_idx) decided true: no push, VolumeAlreadyOpen
+            rs = fn.reach([0], cut_edges=specialise_on(fn, apred, 1))
+            if b not in rs and any(x[0] in rs for x in errs):
+                ok = True
         R.require(ok, fn, "already-open-scan", "volume pushed without a completed scan for VolumeAlreadyOpen", fn.loc(b))
-    errs = [x for x in err_returns(fn) if x[2] == "VolumeAlreadyOpen"]
     okk = False
     for (b, i, var, term) in errs:
         ok, _ = guarded(fn, b, g_cmp("Eq", True, lambda a: "idx" in tstr(a), None))
         okk = okk or ok
+    if not okk and anys and errs:
+        rs = fn.reach([0], cut_edges=specialise_all(fn, [(p_, 0) for (_b, p_) in anys]))
+        okk = not any(x[0] in rs for x in errs)
     R.require(okk, fn, "already-open-exit", "no VolumeAlreadyOpen exit guarded by idx equality", fn.loc(0))
 
 
@@ -857,6 +935,16 @@ def hv1(F, R):
                     hf = ("raw_directory", "raw_file", "raw_volume")
                     if (is_param(a) and (table_of_term(b_) or last_field(b_) in hf)) or (is_param(b_) and (table_of_term(a) or last_field(a) in hf)):
                         return True
+                # table.iter().position(|x| x.<handle> == param) answered Some(idx)
+                if g.kind == "variant" and g.variant == "Some":
+                    x = strip_refs(g.term)
+                    if x[0] == "var":
+                        ds_ = var_def_terms(fn, x[1])
+                        x = strip_refs(ds_[0]) if len(ds_) == 1 else x
+                    if x[0] == "call" and (x[1] or "").endswith("Iterator::position") and _iter_table(fn, x) in ("open_dirs", "open_files", "open_volumes"):
+                        ok_, conj_, _ex = closure_equalities(F, x[2][1])
+                        if ok_ and len(conj_) == 1 and conj_[0][0][-1:] and conj_[0][0][-1] in ("raw_directory", "raw_file", "raw_volume") and conj_[0][1] is not None and is_param(conj_[0][1]):
+                            return True
                 # delegation: a call to another public VolumeManager method with the param that returned Ok
                 if g.kind == "variant" and g.variant in ("Continue", "Ok"):
                     x = try_inner(g.term) if g.variant == "Continue" else g.term
@@ -941,6 +1029,10 @@ def hv2(F, R):
     ok = len(rets) == 1 and "next_id" in tstr(rets[0]) or (len(rets) == 1 and rets[0][0] == "agg")
     adds = [t for b, t in fn.calls() if (callee_of(t) or "").endswith("AddAssign::add_assign")]
     ok2 = len(adds) == 1 and fn.term_of_operand(adds[0]["args"][1], 0)[:2] == ("c", 1)
+    if not adds:
+        # self.next_id = Wrapping(id.wrapping_add(1)) with id read from next_id
+        st_ = [fn.term_of_rvalue(s_["rv"], b) for b, i, s_ in fn.stmts() if s_["k"] == "Assign" and [e[2] for e in fn.canon_place(s_["p"])["proj"] if e[0] == "field"][-1:] == ["next_id"]]
+        ok2 = len(st_) == 1 and has_sub(st_[0], lambda q: q[0] == "call" and q[1] and q[1].endswith("wrapping_add") and len(q[2]) == 2 and q[2][1][:2] == ("c", 1) and "next_id" in tstr(q[2][0]))
     R.require(ok and ok2, fn, "generate", "generate() must return the counter and add 1", fn.loc(0))
     # the counter only ever moves forward: nothing but new() sets it and nothing but generate() changes it (a reset re-issues
     # handle values that callers may still hold from before - they would be accepted again and name other objects)
